@@ -81,6 +81,7 @@ def check_types(user, libprocs, case):
 def check_case(case):
     libprocs = lib.library()
     if case.get("library_pass"):
+        check_library_string_sizes(case)
         for lp in libprocs.values():
             check_runs(lp, libprocs, case, "library procedure %s" % lp.name)
         return None
@@ -138,10 +139,56 @@ def campaign(seed, n, switches=frozenset()):
     return stats
 
 
+def string_size_table(procs):
+    """procedure -> {string name: declared size (None = BASIC09's default 32, 9999 = the library's size placeholder)}"""
+    sizes = {}
+    for p in procs:
+        d = {}
+        for ln in p.lines:
+            for st_ in ln.stmts:
+                if st_.kind in ("dim", "param"):
+                    for g in st_.groups:
+                        for nm, dims in g["names"]:
+                            typ = (g["type"] or "").upper()
+                            if typ == "STRING" or (not typ and nm.endswith("$")):
+                                d[nm.upper()] = g.get("size")
+        sizes[p.name.lower()] = d
+    return sizes
+
+
+def check_library_string_sizes(case):
+    """BASIC09 passes parameters by reference and unchecked: a string handed from one library procedure to another must be declared with the
+    same size on both sides (in particular, with the size placeholder on both sides), or the callee sees a truncated string."""
+    text = tool.ecb_text().replace("\r\n", "\n").replace("\r", "\n").replace("<<>>", "[9999]")
+    procs, _ = lib.scan(text)
+    sizes = string_size_table(procs)
+    byname = {p.name.lower(): p for p in procs if p.name}
+    n = 0
+    for p in procs:
+        for callee, args, lineno in p.runs:
+            cp = byname.get(callee)
+            if cp is None:
+                continue
+            for (pn, kind), a in zip(cp.params, args):
+                if kind == "s" and a[0] == "var" and a[1].upper() in sizes.get(p.name.lower(), {}):
+                    n += 1
+                    sa, sc = sizes[p.name.lower()][a[1].upper()], sizes[callee].get(pn.upper())
+                    if sa != sc:
+                        show = lambda z: {None: "STRING (32 bytes)", 9999: "STRING<<>> (the requested size)"}.get(z, "STRING[%s]" % z)
+                        raise Violation("library procedure %s passes its %s %s to parameter %s of %s, which is declared %s"
+                                        % (p.name, show(sa), a[1], pn, callee, show(sc)), case)
+    return n
+
+
 def library_pass(switches=frozenset()):
     stats = Stats()
     libprocs = lib.library()
     case = {"library_pass": True}
+    try:
+        stats.classes["library_string_hand_overs"] = check_library_string_sizes(case)
+    except Violation as v:
+        stats.fail(v.detail, case)
+        return stats
     for lp in libprocs.values():
         try:
             check_runs(lp, libprocs, case, "library procedure %s" % lp.name, stats)
